@@ -54,6 +54,14 @@ GridDef == [
   Radiolytic |-> { PS([g |-> <<21, 10, -7>>], [g |-> <<45, 100, -7>>], [density |-> <<998, 1000, 0>>, doserate |-> <<15, 100, 0>>]) },
   RadiolyticAB |-> { PS([g_alpha |-> <<1, 1, -7>>, g_beta |-> <<2, 1, -7>>], [g_alpha |-> <<8, 10, -7>>, g_beta |-> <<45, 100, -7>>],
                         [density |-> <<998, 1000, 0>>, doserate_alpha |-> <<15, 100, 0>>, doserate_beta |-> <<3, 10, 0>>]) },
+  RadiolyticGA |-> { PS([g_gamma |-> <<1, 1, -7>>, g_alpha |-> <<3, 1, -7>>], [g_gamma |-> <<8, 10, -7>>, g_alpha |-> <<45, 100, -7>>],
+                        [density |-> <<998, 1000, 0>>, doserate_gamma |-> <<15, 100, 0>>, doserate_alpha |-> <<3, 10, 0>>]) },
+  RadiolyticBA |-> { PS([g_beta |-> <<1, 1, -7>>, g_alpha |-> <<3, 1, -7>>], [g_beta |-> <<8, 10, -7>>, g_alpha |-> <<45, 100, -7>>],
+                        [density |-> <<998, 1000, 0>>, doserate_beta |-> <<15, 100, 0>>, doserate_alpha |-> <<3, 10, 0>>]) },
+  RadiolyticNGA |-> { PS([g_n |-> <<1, 1, -7>>, g_gamma |-> <<3, 1, -7>>, g_alpha |-> <<7, 1, -7>>],
+                         [g_n |-> <<8, 10, -7>>, g_gamma |-> <<45, 100, -7>>, g_alpha |-> <<2, 1, -8>>],
+                         [density |-> <<998, 1000, 0>>, doserate_n |-> <<15, 100, 0>>, doserate_gamma |-> <<3, 10, 0>>,
+                          doserate_alpha |-> <<1, 20, 0>>]) },
   TPoly |-> { PS(PolyV1, PolyA1, NoEnv), PS(PolyV2, PolyA2, NoEnv) },
   RTPoly |-> { PS(PolyV1, PolyA1, NoEnv), PS(PolyV2, PolyA2, NoEnv) },
   ShiftedTPoly |-> { PS(PolyV1, PolyA1, NoEnv), PS(PolyV2, PolyA2, NoEnv) },
